@@ -54,15 +54,27 @@ def run(prop, tier):
         sig = "%s %s [%s %s]" % (prop, "+".join(clauses), kind, describe(o))
         rep.violation(sig, {"failing_clauses": clauses, "schedule": scheds[f["line"] - 1] if f["line"] <= len(scheds) else "random (seeded)",
                             "observed": o, "seed": seed})
-    # the switch from plaintext to ciphertext in mid-connection, at connection level: a pipelined client whose encrypted frames
-    # arrive in the same segment as the tail of the plaintext Encryption Response (pairs judged by Trace_Frames)
+    # the encrypted stream at CONNECTION level: the switch from plaintext to ciphertext inside one segment (pipelined client), every
+    # clientbound write accepted in portions, a transport that stalls in the middle of a frame while routing steps complete, serverbound frames
+    # that arrive in pieces around a timer tick or a routing completion -- each run next to its whole-frame reference (pairs judged by Trace_Frames)
     import frames_check
-    pfails, pobs, ptr = frames_check.run_pairs(frames_check.pipeline_schedules(tier == "thorough"), wd, hx, seed, name="pipeline")
+    r3 = vlib.run_tlc("MC_Frames", "MC_FramesSituations.cfg", wd, workers=4, timeout=900)
+    if not r3.ok:
+        raise vlib.ToolError("TLC reports %s on MC_FramesSituations.cfg:\n%s" % (r3.violated, r3.output[-3000:]))
+    sits = {}
+    for b in r3.marked["REPLAY"]:
+        for x in b["situations"]:
+            sits[json.dumps(x, sort_keys=True)] = x
+    pscheds = frames_check.schedules([sits[k] for k in sorted(sits)], tier == "thorough")
+    pfails, pobs, ptr = frames_check.run_pairs(pscheds, wd, hx, seed, name="connlevel")
     for f in pfails:
         o = pobs[f["line"] - 1]
-        rep.violation("%s C05_SwitchMidConnection(%s) [pipelined client, Encryption Response cut at %s]" % (prop, "+".join(sorted(f["clauses"])), o.get("sched", {}).get("pipeline", "?")),
-                      {"failing_clauses": sorted(f["clauses"]), "observed": {k: o[k] for k in o if k not in ("ref", "hist")}, "reference": o.get("ref"), "seed": seed})
-    notes.append("pipeline family: %d pairs judged by Trace_Frames" % len(pobs))
+        sc = pscheds[f["line"] - 1]
+        rep.violation("%s C05_ConnectionStreamUnderPartialIO(%s) [%s]" % (prop, "+".join(sorted(f["clauses"])), sc["tag"]),
+                      {"failing_clauses": sorted(f["clauses"]), "schedule": sc, "observed": {k: o[k] for k in o if k not in ("ref", "hist")}, "reference": o.get("ref"), "seed": seed})
+    states += r3.distinct + ptr.distinct
+    transitions += r3.generated + ptr.generated
+    notes.append("connection level: %d schedules (pipelined switch, split writes, write stalls, segmented reads) run in pairs and judged by Trace_Frames" % len(pobs))
     rc = rep.finish()
     nontrivial = {json.dumps([o["ws"], o["sw"], [w["out"] for w in o["w"]], [(x["out"]) for x in o["r"]], i if o["src"] == "random" else 0])
                   for i, o in enumerate(observed) if any(w["out"] == "pending" for w in o["w"] + o["r"]) or len(o["w"]) > len(o["ws"])}
